@@ -314,6 +314,18 @@ func init() {
 				}
 				return map[string]any{"ast": a.Ast, "env": a.Env, "raw": raw}
 			}
+			if strings.HasPrefix(a.Site, "after-include-") {
+				// the Lean side walks the site's documents with the stateful model (Model/TemplateDocs.lean: heap of
+				// interp.Options cells); the grammar side never sees `other`
+				o := [][2]string{}
+				if len(a.Other) > 0 && a.Other[0] != nil {
+					o = a.Other[0]
+				}
+				if layers == nil {
+					layers = [][][2]string{}
+				}
+				return map[string]any{"ast": a.Ast, "env": a.Env, "layers": layers, "after": a.Site, "other": o}
+			}
 			return map[string]any{"ast": a.Ast, "env": a.Env, "layers": layers}
 		},
 		Timeout: 20 * time.Second,
